@@ -3,6 +3,8 @@ package health
 import (
 	"context"
 	"net"
+	"net/http"
+	"net/http/httptest"
 	"sync/atomic"
 	"testing"
 	"time"
@@ -71,5 +73,62 @@ func TestVerifReplayConsecutiveFailures(t *testing.T) {
 	time.Sleep(30 * time.Millisecond)
 	if n := atomic.LoadInt32(&failedCalls); n != 0 {
 		t.Fatalf("probe outcomes S F F S F with maxFailed=3: proxy withdrawn after a single failure following a success (failed callback ran %d time(s), counter=%d)", n, atomic.LoadUint64(&m.failedTimes))
+	}
+}
+
+// A probe slower than its timeout counts as failed (adapted from an
+// independently written demonstration test).
+func newDemoM2Monitor(url string, normal func()) *Monitor {
+	ctx, cancel := context.WithCancel(context.Background())
+	return &Monitor{
+		checkType:      "http",
+		interval:       4 * time.Second, // much longer than the timeout
+		timeout:        150 * time.Millisecond,
+		maxFailedTimes: 1,
+		url:            url,
+		header:         make(http.Header),
+		statusNormalFn: normal,
+		statusFailedFn: func() {},
+		ctx:            ctx,
+		cancel:         cancel,
+	}
+}
+
+// A backend that answers 200, but only after 600ms, is probed with a 150ms
+// timeout. Every probe exceeds its timeout, so the proxy must never be
+// reported healthy.
+func TestDemoM2SlowProbeCountsAsFailed(t *testing.T) {
+	slow := httptest.NewServer(http.HandlerFunc(func(w http.ResponseWriter, r *http.Request) {
+		select {
+		case <-time.After(600 * time.Millisecond):
+		case <-r.Context().Done():
+		}
+		w.WriteHeader(200)
+	}))
+	defer slow.Close()
+	fast := httptest.NewServer(http.HandlerFunc(func(w http.ResponseWriter, r *http.Request) {
+		w.WriteHeader(200)
+	}))
+	defer fast.Close()
+
+	// sanity: same settings against a fast backend do become healthy
+	fastOK := make(chan struct{}, 1)
+	mf := newDemoM2Monitor(fast.URL+"/", func() { fastOK <- struct{}{} })
+	mf.Start()
+	defer mf.Stop()
+	select {
+	case <-fastOK:
+	case <-time.After(3 * time.Second):
+		t.Fatalf("fast backend never reported healthy")
+	}
+
+	slowOK := make(chan struct{}, 1)
+	ms := newDemoM2Monitor(slow.URL+"/", func() { slowOK <- struct{}{} })
+	ms.Start()
+	defer ms.Stop()
+	select {
+	case <-slowOK:
+		t.Fatalf("probe that took 600ms with a 150ms timeout was counted as a success")
+	case <-time.After(2500 * time.Millisecond):
 	}
 }
